@@ -291,6 +291,92 @@ def drv_double_error(ctx: Ctx, sub: SubCheck):
     ctx.tally.exhaustive[sub.name] = True
 
 
+# ---------------------------------------------------------------------------------------------- containers (lesson A.1)
+
+
+def oracle_container(case):
+    """case = {code, entry, rep, value[, pos]}: the same word / message handed over in another container (little-endian bitarray,
+    frozenbitarray, numpy arrays) gives the decision / codeword its BIT SEQUENCE demands; a container the entry point does not
+    accept (clean TypeError / AttributeError / ValueError) is outside the domain."""
+    from vp import containers as C
+
+    code, entry, rep, v = case["code"], case["entry"], case["rep"], case["value"]
+    n, k, d, g, ext = gf2.CODES[code]
+    cls = lib(code)
+    if entry == "generate":
+        bits = gf2.int_to_bits(v, k)
+        st, out = C.try_call(cls.generate, C.make(rep, bits))
+        if st == "rejected":
+            case["_skipped"] = True
+            return
+        got, exp = C.to_bits(out), gf2.ref_encode(code, bits)
+        if got != exp:
+            raise Fail("container_generate_equals_reference_code", "".join(map(str, got)), "".join(map(str, exp)), rep)
+    elif entry == "check":
+        bits = gf2.int_to_bits(v, n)
+        st, out = C.try_call(cls.check, C.make(rep, bits))
+        if st == "rejected":
+            case["_skipped"] = True
+            return
+        if bool(out) != (v in refset(code)):
+            raise Fail("container_checker_accepts_exactly_codewords", bool(out), v in refset(code), rep)
+    else:  # check_and_correct on a received word: reference decision by nearest codeword
+        bits = gf2.int_to_bits(v, n)
+        rx = C.make(rep, bits)
+        st, out = C.try_call(cls.check_and_correct, rx)
+        if st == "rejected":
+            case["_skipped"] = True
+            return
+        ok, fixed = out
+        eok, eword = _nearest(code, v)
+        if bool(ok) != eok or C.to_bits(fixed) != gf2.int_to_bits(eword, n):
+            raise Fail("container_check_and_correct_reference_decision", [bool(ok), "".join(map(str, C.to_bits(fixed)))], [eok, "".join(map(str, gf2.int_to_bits(eword, n)))], rep)
+
+
+def drv_containers(ctx: Ctx, sub: SubCheck):
+    from vp import containers as C
+
+    items = []
+    for code in LIB:
+        n, k = gf2.CODES[code][0], gf2.CODES[code][1]
+        for rep in C.ALTERNATIVE:
+            items.append((code, "generate", rep))
+            items.append((code, "check", rep))
+            if code in HAMMING:
+                items.append((code, "check_and_correct", rep))
+
+    def work(it, t: Tally):
+        code, entry, rep = it
+        n, k = gf2.CODES[code][0], gf2.CODES[code][1]
+        rs = sorted(refset(code))
+        rng = ctx.rng(f"containers:{code}:{entry}:{rep}")
+        if entry == "generate":
+            values = range(1 << k)
+        elif entry == "check":
+            # all codewords, all their single-error neighbours (quick: every 4th codeword), and as many arbitrary words
+            cws = rs if (n <= 17 or ctx.tier == "thorough") else rs
+            near = {c ^ (1 << p) for c in cws[:: ctx.pick(4, 1)] for p in range(n)}
+            values = list(cws) + sorted(near) + [rng.getrandbits(n) for _ in range(ctx.pick(2048, 1 << 15))]
+        else:
+            # every codeword x every single error (quick: every 8th codeword), error-free words, double errors
+            cws = rs[:: ctx.pick(8, 1)]
+            values = list(cws) + [c ^ (1 << p) for c in cws for p in range(n)] + [c ^ (1 << p) ^ (1 << q) for c in cws[::4] for p, q in itertools.combinations(range(n), 2)]
+        skipped = 0
+        for v in values:
+            case = {"code": code, "entry": entry, "rep": rep, "value": v}
+            ctx.run_case(sub.name, oracle_container, case, t)
+            if case.get("_skipped"):
+                skipped += 1
+                break  # the entry point declines this container altogether
+        if skipped:
+            t.case(sub.name, nontrivial=False, cls=f"container_not_accepted.{code}.{entry}.{rep}")
+        else:
+            t.case(sub.name, nontrivial=True, cls=f"{entry}.{rep}", n=len(values))
+        t.sample(sub.name, {"code": code, "entry": entry, "rep": rep, "n_values": len(values)})
+
+    ctx.shards(work, items)
+
+
 # ---------------------------------------------------------------------------------------------- buffer-reuse histories
 
 
@@ -404,6 +490,7 @@ SUBCHECKS = [
     SubCheck("min_distance", oracle_min_distance, drv_min_distance, "all pairs of library codewords: distance >= advertised d"),
     SubCheck("single_error", oracle_single_error, drv_single_error, "all Hamming codewords x all single-bit errors repaired (bitarray and numpy paths)"),
     SubCheck("error_free", oracle_error_free, lambda ctx, sub: None, "all Hamming codewords pass check_and_correct unchanged (driven by single_error)"),
+    SubCheck("containers", oracle_container, drv_containers, "generate / check / check_and_correct with the word in a little-endian bitarray, frozenbitarray or numpy array: result demanded by the bit sequence"),
     SubCheck("reuse", oracle_reuse, drv_reuse, "histories with a reused receive buffer / repeated words through both repair entry points: every call gives the reference decision for its own word"),
     SubCheck("double_error_16_11_4", oracle_double_error_16_11, drv_double_error, "Hamming(16,11,4): all codewords x all 120 double errors reported uncorrectable, word unchanged"),
 ]
